@@ -13,6 +13,7 @@ import json
 import math
 import os
 import random
+import tempfile
 import time
 import warnings
 
@@ -697,6 +698,46 @@ def _nontrivial(case):
     return any(e != case['equity'][0] for e in case['equity'])
 
 
+def _plot_check(acc):
+    """plot_results() (Agg backend, nothing shown): the statistics drawn for strategy and benchmark are those of the curves
+       that were SUPPLIED - here a strategy that starts later than its benchmark (a burn-in)"""
+    case = _mk('plot-with-earlier-benchmark', '2019-01-02', 'ts', 252, 1.0, [100.0 + 3.0 * ((i * 7) % 11) - 0.5 * i for i in range(60)])
+    try:
+        import matplotlib
+        matplotlib.use('Agg', force=True)
+        import matplotlib.pyplot as plt
+    except Exception:
+        return
+    equity = case['equity']
+    dates = spec_business_days(case['start'], len(equity))
+    idx = _index(dates, 'ts')
+    bench = pd.DataFrame({'Equity': [200.0 - 1.5 * ((i * 5) % 13) + 0.25 * i for i in range(len(equity))]}, index=idx)
+    strat = pd.DataFrame({'Equity': equity[20:]}, index=idx[20:])
+    seen = []
+    ts = TearsheetStatistics(strategy_equity=strat.copy(), benchmark_equity=bench.copy(), periods=252)
+    real = ts.get_results
+
+    def spy(df):
+        seen.append((list(df.index), [float(x) for x in df['Equity']]))
+        return real(df)
+    ts.get_results = spy
+    out = _call(lambda: ts.plot_results(filename=os.path.join(tempfile.gettempdir(), 'c17_plot_%d.png' % os.getpid())))
+    try:
+        plt.close('all')
+        os.remove(os.path.join(tempfile.gettempdir(), 'c17_plot_%d.png' % os.getpid()))
+    except Exception:
+        pass
+    if isinstance(out, str):
+        acc.check('tearsheet-json-agree', False, case, {'what': 'plot_results runs'}, out, 'runs')
+        return
+    want_b = (list(bench.index), [float(x) for x in bench['Equity']])
+    want_s = (list(strat.index), [float(x) for x in strat['Equity']])
+    acc.check('tearsheet-json-agree', want_b in seen, case, {'what': 'plot_results: benchmark statistics computed on the supplied benchmark curve'},
+              [(str(i[0]), len(i)) for i, _ in seen], (str(want_b[0][0]), len(want_b[0])))
+    acc.check('tearsheet-json-agree', want_s in seen, case, {'what': 'plot_results: strategy statistics computed on the supplied strategy curve'},
+              [(str(i[0]), len(i)) for i, _ in seen], (str(want_s[0][0]), len(want_s[0])))
+
+
 def _run_chunk(cases):
     acc = _Acc()
     keys = []
@@ -715,6 +756,9 @@ def run(tier="quick", seed=0, budget_s=20.0, jobs=1):
     seen = {}
     evaluations = 0
     complete = True
+    with warnings.catch_warnings():
+        warnings.simplefilter('ignore')
+        _plot_check(acc)
     if tier == 'quick':
         cases = _quick_cases(seed)
         for case in cases:
@@ -780,7 +824,12 @@ def replay(case):
     case.setdefault('periods', 252)
     case.setdefault('scale', 3.0)
     acc = _Acc()
-    _run_case(case, acc)
+    if case.get('kind') == 'plot-with-earlier-benchmark':
+        with warnings.catch_warnings():
+            warnings.simplefilter('ignore')
+            _plot_check(acc)
+    else:
+        _run_case(case, acc)
     hit = None
     for f in acc.failures:
         if (clause is None or f['clause'] == clause) and (where is None or f['case'].get('where') == _js(where)):
